@@ -18,7 +18,16 @@ func symxC20Session() {
 	s, err := NewSession("id", "m", "tcp", nil, &packet.Connect{Header: &packet.Header{}, ClientId: []byte("c"), KeepaliveTimer: 30})
 	rt.Assert(err == nil, "C20.session.created")
 	s.AddTopic([]byte("m/a"))
-	switch rt.Int("pair", 0, 2) {
+	switch rt.Int("pair", 0, 3) {
+	case 3: // teardown walks the filter list while the client unsubscribes
+		s.AddTopic([]byte("m/b"))
+		n := 0
+		symxPar(func() {
+			for _, t := range s.GetTopics() {
+				n += len(t)
+			}
+		}, func() { s.RemoveTopic([]byte("m/a")) })
+		rt.Assert(n == 3 || n == 6, "C20.session.walk_sees_whole_filters")
 	case 0:
 		symxPar(func() { s.AddTopic([]byte("m/b")) }, func() { s.AddTopic([]byte("m/c")) })
 		rt.Assert(len(s.GetTopics()) == 3, "C20.session.both_filters_recorded")
